@@ -6,7 +6,7 @@
  *
  *   contfs plant <tag> (<dir> <kind>)...    "planted <i> <kind> <top-level entries created> <errno>"
  *   contfs list <dir>...                    "list <dir> <count | -errno> <hexname>..."   (<= 24 names)
- *   contfs fs <op>...                       "fs <i> <errno>"   ops: reg:P unr:P dir:P sym:P:T fifo:P sock:P rm:P nreg:DIR:N
+ *   contfs fs <op>...                       "fs <i> <errno>"   ops: reg:P unr:P dir:P sym:P:T fifo:P sock:P rm:P nreg:DIR:N ldir:DIR
  *   contfs memfd <fd>                       "mut <target> <op> <errno-name>" ; "seals <hex>" ; "size <n>"
  */
 #define _GNU_SOURCE
@@ -304,6 +304,14 @@ static int fsop(char *op) {
         int e = bind(s, (struct sockaddr *)&a, sizeof a) ? errno : 0;
         close(s);
         return e;
+    }
+    if (!strcmp(kind, "ldir")) {                 /* ldir:<dir>  fifteen nested 250-byte directories below <dir> */
+        char comp[251];
+        memset(comp, 'L', 250); comp[250] = 0;
+        if (chdir(p)) return errno;
+        for (int i = 0; i < 15; i++)
+            if (mkdir(comp, 0755) || chdir(comp)) return errno;
+        return chdir("/") ? errno : 0;
     }
     if (!strcmp(kind, "nreg")) {                 /* nreg:<dir>:<count>  numbered regular files with distinct content */
         t = strchr(p, ':');
